@@ -8,7 +8,7 @@
 //        DensityLegalizer::improveXTransport / improveYTransport; solve() is NOT called: the library never calls it)
 //        classes: positions in [-2^59, 2^59] with totals up to 2^61 (domain t1d_dom); positions ~10^8 with supplies < 2^31
 //   "M2 ns nr caps.. dems.. costs[snk][src].."       TransportationProblem (integer costs at the costsFromIntegers bound
-//        INT_MAX / (4 ns)): increaseCapacity(), solve(), toAssignment()
+//        INT_MAX / (4 ns)): increaseCapacity(), solve(), toAssignment(); capacities/demands all small or all large
 //   "M3 binSize k minX maxX minY maxY (k times)"     DensityGrid(binSize, regions), totalCapacity(); regions inside
 //        [-2^22, 2^22]^2
 #include "vh.hpp"
@@ -53,8 +53,11 @@ static void gen(unsigned long long seed, long long count) {
       int ns = g.uni(1, 6), nr = g.uni(1, 12);
       ll cb = INT_MAX / (4LL * ns);
       printf("M2 %d %d", ns, nr);
-      for (int j = 0; j < ns; ++j) printf(" %lld", g.uni(1, g.coin(50) ? 1000 : (1LL << 40)));
-      for (int i = 0; i < nr; ++i) printf(" %lld", g.uni(1, g.coin(50) ? 1000 : (1LL << 40)));
+      // all small, or all large (capacities >= 2^20, demands < 2^31 = the cell-area bound of the property): a tiny full
+      // sink under a huge demand makes sendSource advance by that sink's capacity per iteration (slow, not wrong)
+      bool large = g.coin(50);
+      for (int j = 0; j < ns; ++j) printf(" %lld", large ? g.uni(1LL << 20, 1LL << 40) : g.uni(1, 1000));
+      for (int i = 0; i < nr; ++i) printf(" %lld", large ? g.uni(1LL << 20, (1LL << 31) - 1) : g.uni(1, 1000));
       for (int j = 0; j < ns; ++j) for (int i = 0; i < nr; ++i) {
         int k = (int)g.uni(0, 3);
         printf(" %lld", k == 0 ? 0 : k == 1 ? cb : g.uni(0, cb));
@@ -86,8 +89,8 @@ static std::string run_case(const std::string &line) {
     Transportation1d pb(u, v, s, d);
     pb.balanceDemand();
     std::vector<int> a = pb.assign();
-    ll h = 0; for (int y : a) h = h * 31 + y;
-    snprintf(buf, sizeof buf, "OK %zu %lld", a.size(), h); return buf;
+    unsigned long long h = 0; for (int y : a) h = h * 31u + (unsigned)y;
+    snprintf(buf, sizeof buf, "OK %zu %llu", a.size(), h); return buf;
   }
   if (line.compare(0, 2, "M2") == 0) {
     int ns = nx(), nr = nx();
@@ -98,8 +101,8 @@ static std::string run_case(const std::string &line) {
     pb.increaseCapacity();
     pb.solve();
     std::vector<int> a = pb.toAssignment();
-    ll h = 0; for (int y : a) h = h * 31 + y;
-    snprintf(buf, sizeof buf, "OK %zu %lld", a.size(), h); return buf;
+    unsigned long long h = 0; for (int y : a) h = h * 31u + (unsigned)y;
+    snprintf(buf, sizeof buf, "OK %zu %llu", a.size(), h); return buf;
   }
   if (line.compare(0, 2, "M3") == 0) {
     int binSize = (int)nx(); int k = nx();
